@@ -286,6 +286,11 @@ def run(ctx):
     from .c13 import unique_table
     unique_table(ctx, program, "R14.13")
 
+    ctx.rule("R14.14", "task.create, task.executor and task.add_done_callback hand the given keyword arguments to the function / callback whatever they are called "
+             "(func, task, callback, ...): their own parameters are positional-only", floor=5)
+    from .c03 import kwargs_namespace_rule
+    kwargs_namespace_rule(ctx, program, "R14.14", only=("function.py::Function.task_add_done_callback", "trigger.py::TrigTime."))
+
     ctx.rule("R14.11", "done callbacks are kept one per callback *function*: an object that is built anew on every access (the bound method made by a descriptor's __get__) "
              "compares and hashes by what it denotes (function, instance), so adding it twice keeps one entry and task.remove_done_callback finds it", floor=1)
     tree = program.module("eval.py")
